@@ -94,7 +94,12 @@ def decode_check(bits, value, dt, mapcls, use_map, out, hist=None):
     command, frame = _load()
     f = frame.ForwardFrame(bits, value)
     try:
-        c = command.from_frame(f, devicetype=dt, dev_inst_map=get_map(mapcls) if use_map else None)
+        if use_map and (value + dt) % 2:
+            c = command.from_frame(f, dt, get_map(mapcls))          # the documented parameter order, positionally
+        elif (value + dt) % 3 == 0:
+            c = command.Command.from_frame(f, devicetype=dt, dev_inst_map=get_map(mapcls) if use_map else None)
+        else:
+            c = command.from_frame(f, devicetype=dt, dev_inst_map=get_map(mapcls) if use_map else None)
     except Exception as e:  # noqa
         out.append(("C01:decode-raised:%s@%s" % (type(e).__name__, library_frame(e.__traceback__)),
                     "from_frame(%d-bit %#x, dt=%d, map=%r) raised %r" % (bits, value, dt, mapcls if use_map else "no", e)))
@@ -562,6 +567,21 @@ def _alive_shard(arg):
 
 
 # ------------------------------------------------ Hypothesis histories ----
+def _own_frames():
+    from dali import frame as fr
+    for w in (8, 12, 16, 17, 20, 24, 25, 32):
+        for cls in (fr.Frame, fr.ForwardFrame):
+            f = cls(w)
+            for hi, lo in ((23, 17), (23, 16), (22, 17), (15, 8), (15, 9), (14, 9), (14, 10), (9, 0), (7, 0), (12, 8), (3, 0),
+                           (16, 16), (15, 15), (8, 8), (0, 0)):
+                if hi < w:
+                    f[hi:lo] = (1 << (hi - lo + 1)) - 1
+                    f[hi:lo] = 0
+                    _ = f[hi:lo]
+            f[w - 1] = True
+            f[0] = True
+
+
 def constructors():
     """A construction storm: things an application would build between decodes."""
     from dali import address as a
@@ -591,6 +611,8 @@ def constructors():
         lambda: d.QueryDeviceStatus(a.DeviceShort(True)), lambda: g.GoToScene(a.GearGroup(True), True),
         lambda: a.DeviceShort(False), lambda: a.GearShort(True), lambda: a.InstanceNumber(True), lambda: a.DeviceGroup(True),
         lambda: d.SetEventFilter(a.DeviceShort(True), a.InstanceNumber(False)),
+        # the program builds frames of its own, of other lengths, with the same bit ranges the library uses
+        _own_frames,
     ]
 
 
